@@ -139,7 +139,19 @@ def hoistTargetPart (e : Node) (sp : Span) : M (Node × Node) := do
   | some n, some a => pure (.paren a sp, tempIdent n)
   | _, _ => pure (e, e)
 
-/-- `split_member_target` -/
+/-- `split_computed_key` -/
+def splitComputedKey (csp : Span) (e : Node) (sp : Span) : M (Node × Node) := do
+  let (tk, ok) ← hoistTargetPart e sp
+  pure (Node.other "Computed" csp ["expression"] [tk], Node.other "Computed" csp ["expression"] [ok])
+
+/-- the guard of the `Paren` arm of `split_simple_target` -/
+def isSplittableInner : Node → Bool
+  | .member .. => true
+  | .paren .. => true
+  | .other k _ _ _ => k == "SuperPropExpression"
+  | _ => false
+
+/-- `split_simple_target` (`split_member_target` wraps its first component in `AssignTarget::Simple`) -/
 def splitMemberTarget (left : Node) (sp : Span) : M (Node × Node) :=
   match left with
   | .member obj prop msp =>
@@ -152,12 +164,21 @@ def splitMemberTarget (left : Node) (sp : Span) : M (Node × Node) :=
       let (tobj, oobj) ← if objRepeatable then pure (obj, obj) else hoistTargetPart obj sp
       let (tprop, oprop) ← match prop with
         | .other "Computed" csp ["expression"] [e] =>
-          if !isSimpleTargetPart e then do
-            let (tk, ok) ← hoistTargetPart e sp
-            pure (Node.other "Computed" csp ["expression"] [tk], Node.other "Computed" csp ["expression"] [ok])
+          if !isSimpleTargetPart e then splitComputedKey csp e sp
           else pure (prop, prop)
         | _ => pure (prop, prop)
       pure (.member tobj tprop msp, .member oobj oprop msp)
+    else pure (left, left)
+  | .other "SuperPropExpression" ssp ["obj", "property"] [sup, .other "Computed" csp ["expression"] [e]] =>
+    if !isSimpleTargetPart e then do
+      let (tk, ok) ← splitComputedKey csp e sp
+      pure (.other "SuperPropExpression" ssp ["obj", "property"] [sup, tk],
+            .other "SuperPropExpression" ssp ["obj", "property"] [sup, ok])
+    else pure (left, left)
+  | .paren inner psp =>
+    if isSplittableInner inner then do
+      let (t, o) ← splitMemberTarget inner sp
+      pure (.paren t psp, o)
     else pure (left, left)
   | _ => pure (left, left)
 
